@@ -469,6 +469,25 @@ class Evaluator(object):
             else:
                 args.append(self.ev(a, loc))
         kw = dict((k.arg, self.ev(k.value, loc)) for k in n.keywords)
+        if ((isinstance(f, ast.Name) and f.id == 'cmp_to_key' and f.id not in (loc or {}) and not isinstance(self.env.get(f.id), (ast.FunctionDef, Closure)))
+                or (isinstance(f, ast.Attribute) and f.attr == 'cmp_to_key' and isinstance(f.value, ast.Name) and f.value.id == 'functools')) and len(args) == 1 and not kw:
+            # functools.cmp_to_key(three-way comparison of the analysed code): the key objects compare by calling it
+            import functools as _ft
+            c_ = args[0]
+
+            def _cmp(a_, b_, _c=c_):
+                r_ = self.call_user(_c, [a_, b_]) if isinstance(_c, ast.FunctionDef) else self.call_value(_c, [a_, b_], {})
+                if isinstance(r_, bool):
+                    return int(r_)
+                if isinstance(r_, int):
+                    return r_
+                try:
+                    return -1 if r_ < 0 else (1 if r_ > 0 else 0)
+                except NotConst:
+                    raise
+                except Exception as e:
+                    raise PyRaise('comparison result %r is not ordered against 0: %r' % (r_, e), type(e).__name__, e)
+            return _ft.cmp_to_key(_cmp)
         if isinstance(f, ast.Name) and f.id in PURE_BUILTINS and f.id not in loc and f.id not in self.env:
             fn = PURE_BUILTINS[f.id]
             if f.id == 'map' and len(args) == 2 and isinstance(args[0], Opaque) and isinstance(args[0].node, ast.Lambda):
